@@ -35,7 +35,7 @@ var optSets = []optSet{
 }
 
 var alphabet = []string{
-	"a", " ", "\n", ";", "'", "\"", "`", "(", ")", "--", "/*", "*/", "#", "\\", "$$", "$t$", "E'", "é",
+	"a", " ", "\n", ";", "'", "\"", "`", "(", ")", "--", "/*", "*/", "#", "\\", "$$", "$t$", "E'", "é", "\u00a0",
 	"BEGIN ", "ATOMIC ", "END", "DELIMITER ", "//", "GO", "\nGO\n", "-- atlas:delimiter // \n",
 }
 
@@ -219,7 +219,7 @@ var shapes = []shape{
 }
 
 var seps = []string{";\n", ";", ";\n\n", ";\n-- note\n", "; /* c */ ", ";\n\n-- a;\n-- b\n"}
-var leads = []string{"", "\n\n", "-- file comment;\n\n", "/* c; */\n"}
+var leads = []string{"", "\n\n", "-- file comment;\n\n", "/* c; */\n", "\u00a0\n\n"}
 var tails = []string{";", ";\n", "", ";\n-- bye\n"}
 
 type delimMode struct {
@@ -368,7 +368,7 @@ func Run(r *report.Run) {
 	if r.Tier == "thorough" {
 		L, maxStmts, full = 5, 3, true
 	}
-	r.Rule = fmt.Sprintf("(a) every string of <=%d tokens over a %d-token alphabet (quotes, parens, comment markers, backslash, dollar tags, E', multi-byte rune, BEGIN/ATOMIC/END, DELIMITER, //, GO, the atlas:delimiter header) x the 4 scanner option sets the drivers use (positions, overlap and gap oracle) plus a T-SQL-like set (totality only); (b) every script of <=%d statements from %d statement shapes (per option set) x 4 leads x %d separators x 4 tails x 7 delimiter modes (default, header directive //, DELIMITER //, blank-line delimiter, two multi-byte delimiters via DELIMITER, ;;) with the intended split and line numbers known to the generator; non-trivial = input that scans to >=1 statement or an error; inputs are distinct by construction", L, len(alphabet), maxStmts, len(shapes), len(seps))
+	r.Rule = fmt.Sprintf("(a) every string of <=%d tokens over a %d-token alphabet (quotes, parens, comment markers, backslash, dollar tags, E', multi-byte rune, non-ASCII white space (NBSP), BEGIN/ATOMIC/END, DELIMITER, //, GO, the atlas:delimiter header) x the 4 scanner option sets the drivers use (positions, overlap and gap oracle) plus a T-SQL-like set (totality only); (b) every script of <=%d statements from %d statement shapes (per option set) x 5 leads x %d separators x 4 tails x 7 delimiter modes (default, header directive //, DELIMITER //, blank-line delimiter, two multi-byte delimiters via DELIMITER, ;;) with the intended split and line numbers known to the generator; non-trivial = input that scans to >=1 statement or an error; inputs are distinct by construction", L, len(alphabet), maxStmts, len(shapes), len(seps))
 	r.Assumptions = []string{
 		"an error return is always acceptable for arbitrary token strings (the property allows 'an error or a list'); for generated well-formed scripts an error is a violation",
 		"a gap may contain white space, complete comments of the enabled kinds, the active delimiter and DELIMITER/GO command lines; an unterminated comment in a gap counts as text dropped",
@@ -507,7 +507,7 @@ func Run(r *report.Run) {
 		r.Sample(scriptCases[len(scriptCases)/2])
 		r.Sample(scriptCases[len(scriptCases)-7])
 	}
-	r.Sample(Case{Input: alphabet[21] + alphabet[22] + alphabet[2] + alphabet[0] + alphabet[22], Opt: "mysql"})
+	r.Sample(Case{Input: alphabet[22] + alphabet[23] + alphabet[2] + alphabet[0] + alphabet[23], Opt: "mysql"})
 }
 
 func Replay(r *report.Run, raw json.RawMessage) {
